@@ -11,7 +11,14 @@ Layout
   `lockExpire`, `Batch.apply`);
 * `StoreRel` — what every store change other than a commit looks like to a watcher;
 * `WInv` (per-writer part of the invariant) and `Inv`;
-* `inv_of_storeRel`, `inv_of_commit`, `inv_step`, `inv_run`, `clean_unique`.
+* `inv_of_storeRel`, `inv_of_commit`, `inv_step`, `inv_run`, `clean_unique`;
+* `Init`, `inv_init`;
+* `wstep_frame` / `step_frame` (rows change only by a commit), `replay`, `run_replay`;
+* `Writer.measure`, `wstep_measure`, `ownSteps_le`, `finishes_of_stepsOf` (bounded progress);
+* `LogInv` (the ghost log is a sequential history), `loginv_step`, `loginv_run`.
+
+Neither `Model/Store.lean` nor `Model/StoreMachine.lean` is modified: all ghost state needed
+(`lockVer`, `lockLast`, `committed`, `log`, what `exec` read) is already in the validated model.
 -/
 namespace Swat4
 open Std
@@ -145,6 +152,28 @@ theorem decide_key {op : WOp} {ex : Option Server} {now : Int} {b : Batch} {r : 
         show r'.addr.key = _
         exact hap _ _ (hex _ rfl) hr
     · cases h; rfl
+
+/-- `decide` never queues a batch together with an error result -/
+theorem decide_inr_ok {op : WOp} {ex : Option Server} {now : Int} {b : Batch} {r : WResult}
+    (h : decide op ex now = .inr (b, r)) : ∃ x, r = .ok x := by
+  unfold decide at h
+  split at h
+  · cases h; exact ⟨_, rfl⟩
+  · split at h
+    · cases h
+    · cases h; exact ⟨_, rfl⟩
+  · cases h
+  · split at h
+    · split at h
+      · cases h
+      · cases h; exact ⟨_, rfl⟩
+    · cases h; exact ⟨_, rfl⟩
+  · cases h
+  · split at h
+    · split at h
+      · cases h
+      · cases h; exact ⟨_, rfl⟩
+    · cases h; exact ⟨_, rfl⟩
 
 /-! ## what a store change other than a commit looks like to a watcher -/
 
